@@ -53,7 +53,7 @@ example : claimed ex1 = [⟨1, .tcp⟩] ∧ ex1.byClose = [⟨2, .udp⟩, ⟨3, 
 /-- **ipc_fifo**: descriptors leave in arrival order — what `uv_accept` took so far, followed by
 what is pending, followed by what `uv_close` closed, *is* the admission sequence. -/
 theorem ipc_fifo {s : St} (hr : Reach s) :
-    s.admitted = s.taken.map (·.1) ++ pending s ++ s.byClose :=
+    s.stored = s.taken.map (·.1) ++ pending s ++ s.byClose :=
   (reach_inv hr).fifo
 
 /-- … and the next `uv_accept` hands out exactly the oldest pending descriptor -/
@@ -70,7 +70,7 @@ theorem accept_takes_oldest {s : St} (hr : Reach s) (c : ClientTy) (e : Int)
   have ht : s'.taken = s.taken ++ [(fd, e == 0)] := by
     simp only [← hs', uvAccept, ha]
     cases c <;> simp at hc ⊢ <;> (split <;> try split) <;> rfl
-  have hadm : s'.admitted = s.admitted := by
+  have hadm : s'.stored = s.stored := by
     simp only [← hs', uvAccept, ha]
     cases c <;> simp at hc ⊢ <;> (split <;> try split) <;> rfl
   have hbc : s'.byClose = s.byClose := by
